@@ -734,7 +734,8 @@ impl Reference {
             server_today: None,
             clock_tz: None,
             now_shift: 0,
-            session: None,
+            // (a detached one-off process: a long-lived process of the history under test stays alive)
+            session: Some(u64::MAX),
             fs_faults: FsFaultSpec::default(),
             knobs: Knobs::default(),
             hash_seed: 0x5EED,
